@@ -26,6 +26,9 @@ BASES = {
     # shallow ponds behind bunds that evaporation uses up within a day or two (rainfed, slowly draining soil, showers)
     "rainfed_bunds_paddy": A._b(soil="Paddy", word="showers", irr="none", field="bunds200", crop="rice.2", iwc="SAT"),
     "rainfed_bunds_clay": A._b(soil="Clay", word="normal", irr="none", field="bunds50w20", crop="maize.2", iwc="FC", win="w2"),
+    # bunds in the FALLOW management only, window opening before the planting date (day 1 is a fallow day behind bunds)
+    "fallow_bunds_pre_season": A._b(soil="ClayLoam", word="normal", win="w2", off=True, fallow="bunds50w20"),
+    "fallow_bunds_dry_pre_season": A._b(soil="Clay", word="dry", win="w2", off=True, fallow="bunds200", irr="smt"),
     "const_wet30": A._b(soil="Loam", word="normal", irr="const8wet30"),
     "smt_wet40": A._b(soil="SandyLoam", word="dry", irr="smt_wet40", iwc="Pct50"),
 }
